@@ -93,17 +93,18 @@ func modelPatch(base []byte, bs uint64, ops []Op) (out []byte, ok bool) {
 // window of one block over the target from the end of the last match; the first
 // window equal to some full base block (lowest index) becomes a block
 // operation; at the end of the target the short last block of the base is
-// tried against the target's tail. Literal runs are returned unchunked and
-// adjacent block operations are merged. lookup maps the content of every full
-// block to its lowest index.
-func referenceDelta(base, target []byte, bs uint64, lookup map[string]uint64) []Op {
+// tried against the target's tail. Literal runs are returned unchunked (as
+// sub-slices of target) and adjacent block operations are merged. lookup maps
+// the content of every full block to its lowest index. The result is appended
+// to dst[:0].
+func referenceDelta(dst []Op, base, target []byte, bs uint64, lookup map[string]uint64) []Op {
+	ops := dst[:0]
 	if len(base) == 0 {
 		if len(target) == 0 {
-			return nil
+			return ops
 		}
-		return []Op{{Data: target}}
+		return append(ops, Op{Data: target})
 	}
-	var ops []Op
 	emitData := func(d []byte) {
 		if len(d) > 0 {
 			ops = append(ops, Op{Data: d})
@@ -152,18 +153,81 @@ func fullBlockLookup(base []byte, bs uint64) map[string]uint64 {
 	return m
 }
 
-// normalize merges consecutive data operations (the engine chunks literal runs
-// by the maximum data operation size; the reference does not).
-func normalize(ops []Op) []Op {
-	var out []Op
-	for _, o := range ops {
-		if n := len(out); o.isData() && n > 0 && out[n-1].isData() {
-			out[n-1].Data = append(append([]byte(nil), out[n-1].Data...), o.Data...)
+// equalsNormalized tells whether ops, with consecutive data operations merged
+// (the engine chunks literal runs by the maximum data operation size, the
+// reference does not), equals ref.
+func equalsNormalized(ops, ref []Op) bool {
+	i := 0
+	for _, r := range ref {
+		if i >= len(ops) {
+			return false
+		}
+		if !r.isData() {
+			if ops[i].isData() || ops[i].Start != r.Start || ops[i].Count != r.Count {
+				return false
+			}
+			i++
 			continue
 		}
-		out = append(out, o)
+		rest := r.Data
+		for i < len(ops) && ops[i].isData() {
+			d := ops[i].Data
+			if len(d) > len(rest) || !bytes.Equal(d, rest[:len(d)]) {
+				return false
+			}
+			rest = rest[len(d):]
+			i++
+		}
+		if len(rest) != 0 {
+			return false
+		}
 	}
-	return out
+	return i == len(ops)
+}
+
+// modelPatchEquals applies ops to base with slice arithmetic and compares the
+// result with target without materialising it.
+func modelPatchEquals(base []byte, bs uint64, ops []Op, target []byte) string {
+	blocks := blockCount(len(base), bs)
+	rest := target
+	take := func(p []byte) bool {
+		if len(p) > len(rest) || !bytes.Equal(p, rest[:len(p)]) {
+			return false
+		}
+		rest = rest[len(p):]
+		return true
+	}
+	for i, o := range ops {
+		var piece []byte
+		if o.isData() {
+			piece = o.Data
+		} else {
+			if o.Count == 0 || o.Start >= blocks || o.Count > blocks-o.Start {
+				return fmt.Sprintf("operation %d refers to blocks outside the base", i)
+			}
+			hi := (o.Start + o.Count) * bs
+			if hi > uint64(len(base)) {
+				hi = uint64(len(base))
+			}
+			piece = base[o.Start*bs : hi]
+		}
+		if !take(piece) {
+			got, _ := modelPatch(base, bs, ops)
+			return fmt.Sprintf("applying the delta to the base (slice model) gives %q..., target is %q... (first difference within operation %d)", clip(got), clip(target), i)
+		}
+	}
+	if len(rest) != 0 {
+		got, _ := modelPatch(base, bs, ops)
+		return fmt.Sprintf("applying the delta to the base (slice model) gives %d bytes %q..., target has %d bytes %q...", len(got), clip(got), len(target), clip(target))
+	}
+	return ""
+}
+
+func clip(p []byte) []byte {
+	if len(p) > 48 {
+		return p[:48]
+	}
+	return p
 }
 
 func opsEqual(a, b []Op) bool {
@@ -230,34 +294,30 @@ func checkSignature(sig *rsync.Signature, base []byte, bs uint64) string {
 	return ""
 }
 
-// checkOps validates the operations of a delta one by one: well formed, block
-// ranges inside the base, literal size within the limit. It returns the plain
-// copies.
-func checkOps(delta []*rsync.Operation, blocks uint64, maxDataOp uint64) ([]Op, string) {
+// checkOps validates the received operations of a delta (EnsureValid was
+// applied on reception): block ranges inside the base, literal size within the
+// limit, adjacent block ranges coalesced.
+func checkOps(ops []Op, blocks uint64, maxDataOp uint64) string {
 	limit := maxDataOp
 	if limit == 0 {
 		limit = defaultMaxDataOp
 	}
-	ops := make([]Op, 0, len(delta))
-	for i, o := range delta {
-		if err := o.EnsureValid(); err != nil {
-			return nil, fmt.Sprintf("operation %d fails EnsureValid: %v", i, err)
-		}
-		if len(o.Data) > 0 {
+	for i, o := range ops {
+		if o.isData() {
 			if uint64(len(o.Data)) > limit {
-				return nil, fmt.Sprintf("operation %d carries %d literal bytes, limit is %d", i, len(o.Data), limit)
+				return fmt.Sprintf("operation %d carries %d literal bytes, limit is %d", i, len(o.Data), limit)
 			}
-		} else if o.Start >= blocks || o.Count > blocks-o.Start {
-			return nil, fmt.Sprintf("operation %d copies blocks [%d,%d+%d) but the base has %d blocks", i, o.Start, o.Start, o.Count, blocks)
+			if o.Start != 0 || o.Count != 0 {
+				return fmt.Sprintf("operation %d carries data and a block range", i)
+			}
+		} else if o.Count == 0 || o.Start >= blocks || o.Count > blocks-o.Start {
+			return fmt.Sprintf("operation %d copies blocks [%d,%d+%d) but the base has %d blocks", i, o.Start, o.Start, o.Count, blocks)
 		}
-		ops = append(ops, copyOp(o))
-	}
-	for i := 1; i < len(ops); i++ {
-		if !ops[i].isData() && !ops[i-1].isData() && ops[i-1].Start+ops[i-1].Count == ops[i].Start {
-			return nil, fmt.Sprintf("operations %d and %d copy adjacent block ranges %v %v without being coalesced", i-1, i, ops[i-1], ops[i])
+		if i > 0 && !o.isData() && !ops[i-1].isData() && ops[i-1].Start+ops[i-1].Count == o.Start {
+			return fmt.Sprintf("operations %d and %d copy adjacent block ranges %v %v without being coalesced", i-1, i, ops[i-1], o)
 		}
 	}
-	return ops, ""
+	return ""
 }
 
 // splitmix is the deterministic byte source used to expand a drawn seed into
@@ -313,14 +373,14 @@ type Edit struct {
 }
 
 const (
-	editInsert    = iota // insert B fresh bytes at A
-	editDelete           // delete B bytes at A
-	editDuplicate        // copy B bytes from C, insert at A
-	editMove             // cut B bytes at C, insert at A
-	editFlip             // change the byte at A
-	editTwin             // perturb three bytes at A by +1,-2,+1 (same weak hash, different content)
-	editTruncate         // keep the first A bytes
-	editAppendBase       // append the base once more
+	editInsert     = iota // insert B fresh bytes at A
+	editDelete            // delete B bytes at A
+	editDuplicate         // copy B bytes from C, insert at A
+	editMove              // cut B bytes at C, insert at A
+	editFlip              // change the byte at A
+	editTwin              // perturb three bytes at A by +1,-2,+1 (same weak hash, different content)
+	editTruncate          // keep the first A bytes
+	editAppendBase        // append the base once more
 	editKinds
 )
 
